@@ -847,7 +847,9 @@ var droppedErrorExceptions = map[string]string{
 	"core.(*JApiCore).UserTypesData | core.userTypes.Each": "the closure returns nil on every path",
 }
 
-func (c *Ctx) ruleNoDroppedError(rule string) {
+func (c *Ctx) ruleNoDroppedError(rule string) { c.ruleNoDroppedErrorOpt(rule, true) }
+
+func (c *Ctx) ruleNoDroppedErrorOpt(rule string, useExceptions bool) {
 	r := c.R
 	r.Rule(rule, "in functions reachable from the build entry points no call that returns an error-like value has that result discarded (expression statement, `_ =`, or `_` in a tuple), except iterator calls whose closure returns nil on every path and named exceptions", 3)
 	reach := reachDecls(c.reachableLib(c.ssaRoots(buildRoots...), nil))
@@ -890,6 +892,13 @@ func (c *Ctx) ruleNoDroppedError(rule string) {
 				if len(call.Args) == 1 {
 					if fl, ok := call.Args[0].(*ast.FuncLit); ok {
 						allNil := true
+						if fl.Type.Results != nil {
+							for _, fld := range fl.Type.Results.List {
+								if len(fld.Names) > 0 {
+									allNil = false // a named result can be set by a deferred handler
+								}
+							}
+						}
 						ast.Inspect(fl.Body, func(m ast.Node) bool {
 							if ret, ok := m.(*ast.ReturnStmt); ok && len(ret.Results) > 0 && !isNil(pk, ret.Results[len(ret.Results)-1]) {
 								allNil = false
@@ -902,7 +911,7 @@ func (c *Ctx) ruleNoDroppedError(rule string) {
 						}
 					}
 				}
-				if why, ok := droppedErrorExceptions[key]; ok {
+				if why, ok := droppedErrorExceptions[key]; ok && (useExceptions || !strings.Contains(why, "known finding")) {
 					r.Ok(rule, key, "named exception: "+why, c.pos(site.Pos()))
 					r.Except(key, why)
 					continue
